@@ -59,6 +59,26 @@ thread_local! {
     static PENDING: RefCell<Option<St>> = const { RefCell::new(None) };
 }
 
+thread_local! {
+    static INPUT_BUF: RefCell<String> = const { RefCell::new(String::new()) };
+}
+
+/// A buffer that is refilled in place for one case after the other (as a program does that reads
+/// its inputs into one `String`): consecutive inputs then live at the same address.
+pub fn take_input_buf(text: &str) -> String {
+    let mut b = INPUT_BUF.with(|b| std::mem::take(&mut *b.borrow_mut()));
+    b.clear();
+    if b.capacity() < 256 {
+        b.reserve(256);
+    }
+    b.push_str(text);
+    b
+}
+
+pub fn put_input_buf(b: String) {
+    INPUT_BUF.with(|x| *x.borrow_mut() = b);
+}
+
 pub fn set_pending(st: St) {
     PENDING.with(|p| *p.borrow_mut() = Some(st));
 }
@@ -316,8 +336,18 @@ macro_rules! glue {
                 let n = chars.len();
                 match case.ctor {
                     $crate::Ctor::New => {
+                        // string input in a buffer that is reused from case to case
+                        let buf = $crate::take_input_buf(&case.input);
                         $crate::set_pending(st);
-                        $crate::drive($Lexer::new(&case.input), case, n)
+                        let r = $crate::drive($Lexer::new(&buf), case, n);
+                        $crate::put_input_buf(buf);
+                        r
+                    }
+                    $crate::Ctor::NewWithState if case.input.len() % 2 == 0 => {
+                        let buf = $crate::take_input_buf(&case.input);
+                        let r = $crate::drive($Lexer::new_with_state(&buf, st), case, n);
+                        $crate::put_input_buf(buf);
+                        r
                     }
                     $crate::Ctor::NewWithState => {
                         $crate::drive($Lexer::new_with_state(&case.input, st), case, n)
